@@ -314,11 +314,11 @@ def run(ctx):
     cases = []
     for s in scripts:
         for (d, o) in mtu_pairs(quick, rnd, per):
-            cases.append(concretise(s, d, o, len(cases) + 1, rnd, 6000 if quick else 8000))
+            cases.append(concretise(s, d, o, len(cases) + 1, rnd, 12000 if quick else 20000))
     # fixed corner scripts: no owner module at all with 0/1/2/24/200 names at default and boundary MTUs
     for nd in (0, 1, 2, 24, 200):
         for (d, o) in [(0, 0), (1300, 256), (256, 1300)] + ([] if quick else [(65535, 65535), (0, 512), (0, 4096)]):
-            cases.append(concretise({"omods": [], "dmods": [], "ndev": nd, "tags": ["names-only"]}, d, o, len(cases) + 1, rnd, 6000))
+            cases.append(concretise({"omods": [], "dmods": [], "ndev": nd, "tags": ["names-only"]}, d, o, len(cases) + 1, rnd, 12000))
     wd = ctx.sub("replay")
     cpath, tpath = os.path.join(wd, "cases.json"), os.path.join(wd, "trace.ndjson")
     with open(cpath, "w") as f:
@@ -363,8 +363,17 @@ def run(ctx):
 
     # 5. verdicts
     by_run = {}
+    slow = 0
     for (r, ev, reason) in rejected:
+        if reason == "to2_failed_without_cause" and result_of(r).get("timeout"):
+            # a run the deadline cut while it was still making progress says nothing (slow machine, hundreds of
+            # round trips at a tiny MTU); a hang shows as a tail of empty 68/69 polling
+            tail = [e for e in r if e["ev"] in ("m68", "m69", "dev_got", "owner_got", "dev_wrote", "owner_wrote", "module_done", "owner_devmod")][-40:]
+            if len(tail) < 40 or any(e["ev"] not in ("m68", "m69") or e["kvs"] for e in tail):
+                slow += 1
+                continue
         by_run.setdefault(r[0]["run"], (r, ev, reason))
+    ctx.notes["runs_cut_by_deadline_while_progressing_not_judged"] = slow
     nrej = 0
     for runid, (r, ev, reason) in sorted(by_run.items()):
         case = cases[runid - 1]
@@ -378,11 +387,15 @@ def run(ctx):
             if not any(e["ev"] == "owner_devmod" for e in r):
                 # failures while devmod is sent depend on the owner-announced MTU and on the length of the module list
                 detail += "|own_mtu" + mtu_class(case["own_mtu"]) + ("|many-names" if case["fillers"] >= 24 else "|few-names")
-        elif reason[:4] in ("d2o_", "o2d_") and reason[4:] != "offset":
+        elif reason == "done_sent_with_undispatched_owner_info" or (reason[:4] in ("d2o_", "o2d_") and reason[4:] != "offset"):
+            if reason.startswith("done_sent"):
+                reason = "o2d_undispatched_at_done"
             # one family per direction: bytes a module wrote did not reach the peer module complete, in order, once
             yielded = any(e["ev"] == "dev_yield" and e["seq"] < ev["seq"] for e in r)
             reason = reason[:4] + "stream_broken"
             detail = "with-yield" if yielded else "no-yield"
+            if any(e["ev"] == "dev_write_err" and e["seq"] < ev["seq"] for e in r):
+                detail = "device-pipe-closed-by-chunker"      # the signature of the ChunkReader key window (C15)
         elif reason == "owner_got_misrouted":
             detail = "to-next-module"
         elif reason == "devmod_module_list":
